@@ -470,6 +470,30 @@ def run_history(fam, kind, rng, rec, h):
                         del y, z
                     except IndexError:
                         pass
+                    if present and rng.random() < .5:
+                        # the container shrinks under the sequence, whose
+                        # search finger is parked high in a leaf, and the
+                        # finger is then moved to the LEFT
+                        n_ = len(present)
+                        hi_ = rng.randint(max(0, n_ - 4), n_ - 1)
+                        try:
+                            x = s[hi_]
+                            del x
+                        except (IndexError, RuntimeError):
+                            pass
+                        for pk_ in sorted(present)[-rng.randint(1, 3):]:
+                            if is_mapping:
+                                del c[K(pk_)]
+                            else:
+                                c.remove(K(pk_))
+                            present.discard(pk_)
+                        for j_ in (hi_ - 1, hi_ - 2, 0, -1):
+                            try:
+                                x = s[j_]
+                                del x
+                            except (IndexError, RuntimeError):
+                                pass
+                        rec.ev('lazy-seq-shrunk-under-finger')
                     del s
                 elif r < 0.81:
                     op = 'missing-key'
